@@ -54,6 +54,10 @@ def blocks(rng, tier):
 	for n in (2, 3, 100, 4095, 4096, 4097, 8191, 8192, 8193, 10000):
 		yield bytes(rng.randrange(256) for _ in range(n))
 		yield b'a' * n
+	# around the deflate window (32 KiB), the 16-bit sizes of stored blocks and gzip fields, and well beyond
+	for n in (32767, 32768, 32769, 65535, 65536, 65537) + ((300000,) if tier == 'thorough' else ()):
+		yield (bytes(rng.randrange(256) for _ in range(509)) * (n // 509 + 1))[:n]
+		yield (b'a' * 999 + b'b') * (n // 1000) + b'c' * (n % 1000)
 	yield bytes(range(256)) * 20
 
 
@@ -140,8 +144,8 @@ def cases(rng, tier):
 	# coded messages from an independent sender (not the library's composer): gzip as one or several members, with optional
 	# header fields (name, comment, extra, header CRC); zlib streams at every level and window size
 	for _ in range(n):
-		ln = rng.choice((0, 1, 5, 300, 4096, 4097, 9000))
-		data = bytes(rng.randrange(256) for _ in range(ln)) if rng.random() < 0.5 else bytes(rng.choice(b'ab \n') for _ in range(ln))
+		ln = rng.choice((0, 1, 5, 300, 4096, 4097, 9000, 9000, 32768, 65536, 70000))
+		data = (bytes(rng.randrange(256) for _ in range(min(ln, 1021))) * (ln // 1021 + 1))[:ln] if rng.random() < 0.5 else bytes(rng.choice(b'ab \n') for _ in range(min(ln, 5000))) * (ln // 5000 + 1)
 		yield ('zipwire', rng.choice(('gzip', 'deflate')), data, rng.randrange(10 ** 9))
 	n = 20000 if tier == 'thorough' else 3000
 	for _ in range(n):
